@@ -119,57 +119,75 @@ def r1(F, R):
     R.check(sorted(set(map(str, transforming))) == sorted(map(str, [("Rule", "Background", "Skipped"), ("Rule", "Step", "Skipped"), ("Scenario", "Background", "Skipped"), ("Scenario", "Step", "Skipped")])),
             "four-transforming-arms", co, "4 (level x kind) arms", f"transforming arms: {sorted(set(transforming))}")
     R.check(n_fwd_bad == 0, "forward-once", co, "inner.handle_event(mapped) exactly once", f"{n_fwd_bad} paths do not forward exactly one event to the inner writer")
-    # default predicate
-    froms = [b for b in F.crate_bodies() if (b.impl or {}).get("self_adt") == FOS and (b.impl or {}).get("trait") == "std::convert::From"]
-    if len(froms) != 1:
-        raise Unverifiable("From<Writer> for FailOnSkipped")
-    pred = None
-    for s, st in froms[0].assigns(lambda st: st["rv"]["k"] == "agg" and st["rv"].get("adt") == FOS):
-        f = dict(zip(st["rv"]["fields"], st["rv"]["ops"]))
-        pred = A.closure_of_operand(F, froms[0], f["should_fail"])
-    if pred is None:
-        raise Unverifiable("default should_fail closure")
-    _check_default_predicate(F, R, pred, "default-predicate")
-    # the documented entry `Ext::fail_on_skipped` must end in that default: every predicate that can become `should_fail` on a
-    # way from it (closures it passes on, closures stored by the constructors it calls) is `!tagged @allow.skipped`
-    for eb in F.crate_bodies():
-        if (eb.impl or {}).get("trait") == "writer::Ext" and re.search(r"::fail_on_skipped$", eb.name):
-            found, seen, work = [], set(), [(eb, 0)]
-            while work:
-                cb, d = work.pop()
-                if cb.key in seen:
-                    continue
-                seen.add(cb.key)
-                for _, st in cb.assigns(lambda st: st["rv"]["k"] == "agg" and st["rv"].get("adt") == FOS):
-                    f = dict(zip(st["rv"]["fields"], st["rv"]["ops"]))
-                    c = A.closure_of_operand(F, cb, f["should_fail"])
-                    if c is not None:
-                        found.append(c)
-                for _, t in cb.calls():
-                    for a_ in t["args"]:
-                        c = A.closure_of_operand(F, cb, a_)
-                        if c is not None:
-                            found.append(c)
-                    nb = F.callee_body_impl(t)
-                    if nb is not None and d < 3:
-                        work.append((nb, d + 1))
-            uniq = {c.key: c for c in found}
-            for c in uniq.values():
-                _check_default_predicate(F, R, c, "default-predicate" if c.key == pred.key else "ext-default-predicate")
-            R.check(bool(uniq), "ext-default-predicate/source", eb, f"Ext::fail_on_skipped reaches {len(uniq)} predicate(s), each checked",
-                    "no predicate closure is reachable from `Ext::fail_on_skipped`")
+    # default predicate: every predicate (closure or private fn item) that can become `should_fail` on a way from the documented entries
+    # `Ext::fail_on_skipped` / `FailOnSkipped::from` — stored by a constructor they call or passed on by them — is `!tagged @allow.skipped`
+    def preds_of(cb, op):
+        c = A.closure_of_operand(F, cb, op)
+        if c is not None:
+            return [c]
+        out = []
+        for f_ in A.slice_back(cb, [op]).fns:
+            if f_.get("local"):
+                fb = F.body(f_.get("res") or f_["path"], cb.crate) or F.body(f_["path"], cb.crate)
+                if fb is not None and fb.locals[0] == "bool":
+                    out.append(fb)
+        return out
+    entries = [eb for eb in F.crate_bodies() if ((eb.impl or {}).get("trait") == "writer::Ext" and re.search(r"::fail_on_skipped$", eb.name)) or
+               ((eb.impl or {}).get("self_adt") == FOS and (eb.impl or {}).get("trait") == "std::convert::From")]
+    if len(entries) < 2:
+        raise Unverifiable(f"entries of the default fail_on_skipped (Ext::fail_on_skipped, From<Writer>): {len(entries)}")
+    for eb in entries:
+        found, seen, work = [], set(), [(eb, 0)]
+        while work:
+            cb, d = work.pop()
+            if cb.key in seen:
+                continue
+            seen.add(cb.key)
+            for _, st in cb.assigns(lambda st: st["rv"]["k"] == "agg" and st["rv"].get("adt") == FOS):
+                f = dict(zip(st["rv"]["fields"], st["rv"]["ops"]))
+                found += preds_of(cb, f["should_fail"])
+            for _, t in cb.calls():
+                for a_ in t["args"]:
+                    found += preds_of(cb, a_)
+                nb = F.callee_body_impl(t)
+                if nb is not None and d < 3:
+                    work.append((nb, d + 1))
+        uniq = {c.key: c for c in found}
+        is_ext = (eb.impl or {}).get("trait") == "writer::Ext"
+        for c in uniq.values():
+            _check_default_predicate(F, R, c, "ext-default-predicate" if is_ext else "default-predicate")
+        R.check(bool(uniq), ("ext-default-predicate" if is_ext else "default-predicate") + "/source", eb, f"{eb.short[-40:]} reaches {len(uniq)} predicate(s), each checked",
+                f"no predicate is reachable from `{eb.short[-60:]}`")
     R.floor(22)
 
 
 def _check_default_predicate(F, R, pred, pre):
     pb = F.nested(pred)
     anys = [(b, s, t) for b in pb for s, t in b.calls(lambda t: callee_is(t, r"Iterator::(any|find|position|all)$"))]
+    strs = [const_str(a) for nb in pb for _, tt in nb.calls() for a in tt["args"] if const_str(a) is not None] + \
+           [const_str(op) for nb in pb for _, stt in nb.assigns() for op in A.rvalue_operands(stt["rv"]) if const_str(op) is not None]
+    cmps = [(b, s, t) for b in pb for s, t in b.calls(lambda t: callee_is(t, r"PartialEq.*::(eq|ne)$")) if b.in_cycle(s)]
+    if not anys and cmps and pred.kind in ("Fn", "AssocFn", "Closure"):
+        # explicit-loop spelling (`for tag in &sc.tags { if tag == LIT { return false } } ..`): every comparison inside a loop is with the
+        # literal; together they look at the tags of all three levels; `false` is answered only on the positive edge of such a comparison and
+        # `true` is answered somewhere (weaker than the union rule below: which level is consulted when is not decided in this form)
+        lits, owners = [], set()
+        for b, s, t in cmps:
+            lits += [F.const_str_of(c, b.crate) for c in A.slice_back(b, list(t["args"])).consts if F.const_str_of(c, b.crate) is not None]
+            owners |= {o for o, n in A.deep_slice(F, b, list(t["args"])).fields if n == "tags"}
+        R.ok(pre + "/search", pred, f"{len(cmps)} comparison(s) with the literal inside loops")
+        R.check({"gherkin::Scenario", "gherkin::Rule", "gherkin::Feature"} <= owners, pre + "/tags/covers-three-levels", cmps[0][1], "tags of scenario, rule and feature are compared",
+                f"the allow.skipped tag is looked for in the tags of {sorted(owners)} only")
+        R.check(set(lits) == {"allow.skipped"}, pre + "/literal", cmps[0][1], '== "allow.skipped"', f"default predicate compares with {sorted(set(lits))}")
+        rets = [(s, const_int(st["rv"]["op"])) for s, st in pred.assigns(lambda st: st["pl"]["l"] == 0 and not st["pl"]["p"] and st["rv"]["k"] == "use" and const_int(st["rv"]["op"]) is not None)]
+        pos = lambda s: any(g.polarity() is True and g.cond_def() and g.cond_def()[0] == "call" and callee_is(g.cond_def()[2], r"PartialEq.*::eq$") for g in A.guards_of(pred, s))
+        ok = any(v == 1 for _, v in rets) and any(v == 0 for _, v in rets) and all(pos(s) for s, v in rets if v == 0) and not any(pos(s) for s, v in rets if v == 1)
+        R.check(ok, pre + "/negated", pred, "false exactly where the tag was found", "the default predicate is not the negation of `tagged @allow.skipped`")
+        return
     R.check(len(anys) == 1 and callee_is(anys[0][2], r"Iterator::any$"), pre + "/search", pred, "tags.any(..)", f"{len(anys)} searches in the default predicate")
     if len(anys) == 1:
         b, s, t = anys[0]
         tags.check_tag_union(F, R, b, t["args"][0], pre + "/tags", s, "allow.skipped tag")
-        strs = [const_str(a) for nb in pb for _, tt in nb.calls() for a in tt["args"] if const_str(a) is not None] + \
-               [const_str(op) for nb in pb for _, stt in nb.assigns() for op in A.rvalue_operands(stt["rv"]) if const_str(op) is not None]
         R.check(strs == ["allow.skipped"], pre + "/literal", s, '== "allow.skipped"', f"default predicate compares with {strs}")
         sd = pred.single_def(0)
         neg = bool(sd and sd[1] == "assign" and sd[2]["rv"]["k"] == "un" and sd[2]["rv"]["op"] == "Not" and op_local(sd[2]["rv"]["a"]) == t["dest"]["l"])
